@@ -26,9 +26,10 @@ ASSUMPTIONS = [
     "crash = the stack's transport becomes a black hole, it is detached from the network and its tasks are cancelled; restart = a fresh protocol object on the same address",
     "a fault window ends when the last datagram it delayed has been delivered (reordering confined to a finite window)",
     "bound after the last disturbance: finite family max(TTLs) + max(cyclic, refresh) + slack; infinite family INITIAL_DELAY_MAX + 2 x cyclic + slack; slack = initial delay + request-response delay + collection timeout + repetition phase + 0.2 s (deliberately generous)",
+    "infinite family with cyclic offers only: a restarted offerer is detected once per channel (C07), and the detection on the unicast channel (its first SubscribeAck) wipes the offer just learnt from its first multicast message (C05); only a further offer repairs that, so without cyclic offers no implementation that satisfies C05 and C07 converges",
     "infinite family (the statement's restriction): no fault windows, every crash is followed by a restart, and successive disturbances are at least one bound apart so that a (re)started peer has transmitted before it is disturbed again - otherwise per-channel reboot detection (C07) makes convergence impossible for any implementation",
 ]
-BUDGET = {"quick": {"examples": 6400, "shrink": 150}, "thorough": {"examples": 320000, "shrink": 600}}
+BUDGET = {"quick": {"examples": 6400, "shrink": 150}, "thorough": {"examples": 200000, "shrink": 600}}
 INF = 0xFFFFFF
 NETS = {
     False: dict(O=("10.0.0.1", 30490), W=("10.0.0.2", 30490), mc=MCAST, wsock=("10.0.0.2", 5000)),
@@ -182,7 +183,7 @@ def run_case(case):
     t = dict(case["tm"])
     if fam == "infinite":
         t.update(attl=INF, sttl=INF, refresh=None)
-        t["cyc"] = t["cyc"] if t.get("cyc") else 1.0
+        t["cyc"] = t.get("cyc") or 1.0   # cyclic offers stay on in the infinite family (see ASSUMPTIONS)
     else:
         t["attl"] = max(2, min(10, t["attl"] if t["attl"] != INF else 3))
         t["sttl"] = max(2, min(10, t["sttl"] if t["sttl"] != INF else 3))
